@@ -22,22 +22,48 @@ ASSUME TableSane
 ASSUME UnitStrInjective
 ASSUME KeysCovered
 
+\* fitting units of the Shomate objects: all 16 keys (OWN_ROT = "all", thorough tier) or one
+\* quarter of them, rotating with the seed (OWN_ROT = "0".."3")
+OwnGroup(k) ==
+   CASE k = "0" -> {[e |-> "J", per |-> "mol"], [e |-> "cal", per |-> "mol"],
+                    [e |-> "eV", per |-> "molecule"], [e |-> "L atm", per |-> "mol"]}
+     [] k = "1" -> {[e |-> "kJ", per |-> "mol"], [e |-> "kcal", per |-> "mol"],
+                    [e |-> "Eh", per |-> "molecule"], [e |-> "cm3 atm", per |-> "mol"]}
+     [] k = "2" -> {[e |-> "L kPa", per |-> "mol"], [e |-> "cm3 kPa", per |-> "mol"],
+                    [e |-> "Ha", per |-> "molecule"], [e |-> "L torr", per |-> "mol"]}
+     [] OTHER   -> {[e |-> "m3 Pa", per |-> "mol"], [e |-> "cm3 MPa", per |-> "mol"],
+                    [e |-> "m3 bar", per |-> "mol"], [e |-> "L bar", per |-> "mol"]}
+MCShomateOwn ==
+   LET k == IF "OWN_ROT" \in DOMAIN IOEnv THEN IOEnv.OWN_ROT ELSE "0"
+   IN IF k = "all" THEN {u \in Units : ~PerMass(u)} ELSE OwnGroup(k)
+ASSUME UNION {OwnGroup(k) : k \in {"0", "1", "2", "3"}} = {u \in Units : ~PerMass(u)}
+
+\* class filters of the variant configurations (a deviating wrapper concerns a few classes)
+MCAllClasses == Classes
+MCModes == ModeKinds
+MCShomate == {"Shomate"}
+MCChemkin == {"ChemkinReaction"}
+MCNasas == {"Nasa", "Nasa9"}
+MCCvInherited == Empirical \cup {"Reference"}
+
 UnitRec(u, energy) == [e |-> u.e, per |-> u.per, ustr |-> UnitStr(u, energy), rkey |-> RKey(u)]
 \* the unit lists depend only on (per-mass allowed, energy)
 UnitList(mass, energy) ==
    SetToSeq({UnitRec(u, energy) : u \in {v \in Units : PerMass(v) => mass}})
 Ser(c) ==
    [cls |-> c.cls, form |-> c.form, q |-> c.q, state |-> c.state, opts |-> c.opts,
+    expl |-> c.expl, atdefault |-> AtDefault(c),
     shape |-> c.shape, tgiven |-> c.tgiven, phase |-> c.phase,
     own |-> IF c.own = NoUnit THEN "none" ELSE RKey(c.own),
     must |-> {UnitStr(u, Energy(c.q)) : u \in MustAsk(c)},
     getter |-> Getter(c.form, c.q), twin |-> Twin(c.form, c.q),
     kwD |-> KwD(c), kwT |-> KwT(c),
     dflt |-> {[name |-> d[1], sym |-> d[2]] : d \in Defaults(c)},
-    ismode |-> c.cls \in ModeKinds,
-    sig |-> IF c.cls \in ModeKinds THEN ModeTakes(c.cls, c.q) ELSE {},
-    energy |-> Energy(c.q), mass |-> c.cls \in SpeciesCls,
-    species |-> IF c.cls \in RxnCls THEN SpeciesIn(c.cls) ELSE "none",
+    ismode |-> c.cls \in ModeKinds, isaux |-> c.cls \in AuxCls,
+    isrxn |-> c.cls \in RxnCls,
+    sig |-> IF c.cls \in RxnCls THEN {} ELSE Takes(c.cls, c.q),
+    energy |-> Energy(c.q), mass |-> c.cls \in MassCls,
+    species |-> c.spk,
     refs |-> NeedsRefs(c), cov |-> NeedsCov(c), rshape |-> ResultShape(c),
     relevant |-> c.opts \cap Relevant(c),
     nunits |-> Cardinality(UnitsOf(c))]
